@@ -34,6 +34,18 @@ def scenarios(rng, tier):
         s.start('second_%d' % k); s.op('mk 0'); s.op('adv', 3000 + rng.randrange(9000)); s.op('ss_sess 0', 2)
         s.op('adv', rng.choice([1500, 5000, 70000])); s.op('mk 1'); s.op('adv', rng.choice([0, 300, 900]))
         for ev in (rng.choice([2, 3, 0]), rng.randrange(8), rng.randrange(8)): s.op('ss_sess 1', ev); s.op('adv', rng.choice([0, 500]))
+    # several interfaces whose session automata sit in active states and fall silent together: each returns to Nascent on
+    # its own next event, also when those events come within one second of each other
+    for k in range(8 if tier == 'quick' else 100):
+        s.start('both_%d' % k); s.op('mk 0'); s.op('mk 1'); s.op('mk 2'); s.op('adv', 4000 + rng.randrange(3000))
+        first = [rng.choice([2, 3, 0]) for _ in range(3)]
+        for c in (0, 1, 2): s.op('ss_sess %d' % c, 7)            # the first event after the long start-up silence is the one the time-out swallows
+        s.op('adv', 200)
+        for c in (0, 1, 2): s.op('ss_sess %d' % c, first[c])     # now Pending / Complete / Temporary
+        s.op('adv', rng.choice([2000, 5000, 70000]))
+        for c in (0, 1, 2):
+            s.op('ss_sess %d' % c, rng.choice([7, 6, 5, 4])); s.op('adv', rng.choice([0, 0, 100]))
+        for c in (0, 1, 2): s.op('ss_sess %d' % c, rng.choice([2, 3]))
     return [(s.text(), {})]
 SPEC = {(1, 2): 2, (1, 3): 3, (1, 0): 0, (2, 3): 3, (2, 5): 3, (3, 4): 2, (0, 7): 1, (0, 6): 1}
 def oracle(name, ib, mb, meta):
